@@ -233,8 +233,27 @@ class Generator:
         mm = mask(b)
         for m in re.finditer(r'(?<![\w|])(move\s+)?\|([^|]*)\|(?!\|)', mm):
             if n in cl:
-                out += b[i:m.start()] + cl[n]
+                out += b[i:m.start()] + cl[n] + ' '
                 i = m.end()
+                # an annotated closure needs a braced body: wrap a bare expression body
+                k = i
+                while mm[k] in ' \n\t':
+                    k += 1
+                if mm[k] != '{':
+                    depth, e = 0, k
+                    while True:
+                        ch = mm[e]
+                        if ch in '([{':
+                            depth += 1
+                        elif ch in ')]}':
+                            if depth == 0:
+                                break
+                            depth -= 1
+                        elif ch == ',' and depth == 0:
+                            break
+                        e += 1
+                    out += '{ ' + b[k:e].strip() + ' }'
+                    i = e
                 self.rule_log['R11:closure-header'] = self.rule_log.get('R11:closure-header', 0) + 1
             n += 1
         out += b[i:]
@@ -263,12 +282,20 @@ class Generator:
         # first pass: collect function specs to know which functions take the world
         specs, cur = [], None
         self.w_funcs = []
+        self.trusted_fns = []
         i = 0
         while i < len(lines):
             ln = lines[i]
             if ln.startswith('//@fn '):
                 toks = ln[6:].split()
                 cur = {'name': toks[0], 'closures': {}, 'loops': {}, 'header_start': i + 1}
+                if 'trusted=1' in toks:
+                    # no body extraction: an ASSUMED contract (listed in the evidence); still takes the world parameter
+                    self.w_funcs.append(toks[0])
+                    self.trusted_fns.append(toks[0])
+                    cur = None
+                    i += 1
+                    continue
                 for t in toks[1:]:
                     k, _, v = t.partition('=')
                     cur[k] = v
@@ -329,7 +356,7 @@ class Generator:
         emit('use vstd::prelude::*;')
         emit('use core::cmp::Ordering;')
         emit('use super::pre::*;')
-        by_body_line = {s['body_line']: s for s in specs}
+        by_body_line = {s['body_line']: s for s in specs if 'body_line' in s}
         skip = set()
         for s in specs:
             skip |= s.get('skip', set())
@@ -346,6 +373,8 @@ class Generator:
             if ln.startswith('//@fn '):
                 name = ln[6:].split()[0]
                 cur_fn = {'name': name, 'gen_start': len(out) + 1}
+                if 'trusted=1' in ln:
+                    cur_fn = None
                 continue
             if ln.startswith('//@closure') or ln.startswith('//@loop') or ln.startswith('//@endloop'):
                 continue
